@@ -93,6 +93,7 @@ def run_layer(job):
 
 def make_jobs(prop, tier, seed):
     jobs = plug.std_jobs(prop, tier, seed, "m2", n_quick=16, per_quick=6, schedules=4)
+    jobs.extend(plug.line_jobs(prop, tier, seed))
     jobs.extend(layer_jobs(prop, tier, seed))
     if prop == "C04":
         for j in range(4 if tier == "quick" else 24):
